@@ -3,7 +3,7 @@
 (* inside its type's range, prints, and re-parses to an equal value; an    *)
 (* accepted time zone answers every query; long inputs take time           *)
 (* proportional to their size.                                             *)
-EXTENDS CivilArith, TLC, Json, IOUtils
+EXTENDS Ranges, TLC, Json, IOUtils
 
 Rec == ndJsonDeserialize(IOEnv.TRACE)
 VARIABLE l
@@ -22,47 +22,6 @@ RtWhy(rt) ==
     [] rt = "probe-panic"   -> "an accepted time zone panicked on a query"
     [] OTHER                -> "unknown round-trip status"
 
-InRange(lo, x, hi) == lo <= x /\ x <= hi
-\* strptime fields; -100000 = absent
-TmField(x, lo, hi) == x = -100000 \/ InRange(lo, x, hi)
-TmOk(t) == /\ TmField(t[1], YearMin, YearMax) /\ TmField(t[2], 1, 12) /\ TmField(t[3], 1, 31)
-           /\ TmField(t[4], 0, 23) /\ TmField(t[5], 0, 59) /\ TmField(t[6], 0, 59) /\ TmField(t[7], 0, 999999999)
-           /\ TmField(t[8], OffMin, OffMax) /\ TmField(t[9], 1, 366) /\ TmField(t[10], YearMin, YearMax)
-           /\ TmField(t[11], 1, 53) /\ TmField(t[12], 0, 53) /\ TmField(t[13], 0, 53)
-
-SpanOf(u) == [y |-> BToInt(u[1]), mo |-> BToInt(u[2]), w |-> BToInt(u[3]), d |-> BToInt(u[4]), h |-> BToInt(u[5]),
-              mi |-> u[6], s |-> u[7], ms |-> u[8], us |-> u[9], ns |-> u[10]]
-SpanSane(u) == /\ \A i \in 1..5 : BFitsInt(u[i])
-               /\ SpanInLimits(SpanOf(u))
-               \* one sign for every unit
-               /\ ~(\E i, j \in 1..10 : u[i].s = 1 /\ u[j].s = -1)
-
-ValueWhy(r) ==
-  LET v == r.val IN
-  CASE r.kind = "ts" ->
-         (IF ~ApiSignsOk(v.sec, v.ns) \/ ~SecFits(FloorSec(v.sec, v.ns)) THEN "timestamp fields malformed"
-          ELSE IF ~InTsRange(InstOfApi(v.sec, v.ns)) THEN "timestamp outside Timestamp::MIN..=MAX" ELSE "")
-    [] r.kind = "zoned" ->
-         (IF ~ApiSignsOk(v.sec, v.ns) \/ ~SecFits(FloorSec(v.sec, v.ns)) THEN "timestamp fields malformed"
-          ELSE LET t == InstOfApi(v.sec, v.ns) IN
-               IF ~InTsRange(t) THEN "zoned timestamp outside Timestamp::MIN..=MAX"
-               ELSE IF ~InRange(OffMin, v.f[8], OffMax) THEN "offset outside Offset::MIN..=MAX"
-               ELSE IF SubSeq(v.f, 1, 7) # FieldsOf(CivilOfInst(t, v.f[8])) THEN "civil fields are not timestamp + offset"
-               ELSE "")
-    [] r.kind \in {"dt", "pieces"} -> (IF ValidFields(v.f) THEN "" ELSE "datetime fields out of range")
-    [] r.kind = "date" -> (IF ValidDate(v.f[1], v.f[2], v.f[3]) THEN "" ELSE "date out of range")
-    [] r.kind = "time" -> (IF InRange(0, v.f[1], 23) /\ InRange(0, v.f[2], 59) /\ InRange(0, v.f[3], 59) /\ InRange(0, v.f[4], 999999999)
-                           THEN "" ELSE "time out of range")
-    [] r.kind = "span" -> (IF SpanSane(v.u) THEN "" ELSE "span beyond its unit limits or of mixed sign")
-    [] r.kind = "sd" -> (IF v.ns > -NsPerSec /\ v.ns < NsPerSec /\ ~(v.sec.s = 1 /\ v.ns < 0) /\ ~(v.sec.s = -1 /\ v.ns > 0)
-                         THEN "" ELSE "duration seconds and nanoseconds malformed")
-    [] r.kind = "tm" -> (IF ~TmOk(v.tm) THEN "broken-down time field out of range"
-                         ELSE IF v.dt # <<>> /\ ~ValidFields(v.dt) THEN "datetime fields out of range" ELSE "")
-    \* (whether the transitions of a zone built from hostile data come out in order is
-    \* recorded in the event but not demanded: the property asks for answers, not for sense)
-    [] r.kind = "tz" -> (IF v.offs_ok # 1 THEN "accepted time zone reports an offset outside Offset::MIN..=MAX" ELSE "")
-    [] OTHER -> "unknown value kind"
-
 ParseWhy(r) ==
   IF r.st = "panic" THEN "parser panicked"
   ELSE IF r.st = "hang" THEN "parser did not terminate"
@@ -70,7 +29,7 @@ ParseWhy(r) ==
   ELSE IF r.st = "err" THEN ""
   ELSE IF r.st # "ok" THEN "unknown status"
   ELSE IF r.rt = "print-panic" \/ r.rt = "probe-panic" THEN RtWhy(r.rt)
-  ELSE LET w == ValueWhy(r) IN IF w # "" THEN w ELSE RtWhy(r.rt)
+  ELSE LET w == ValueWhy(r.kind, r.val) IN IF w # "" THEN w ELSE RtWhy(r.rt)
 
 TzifWhy(r) ==
   IF r.st = "panic" THEN "TimeZone::tzif panicked"
